@@ -261,6 +261,16 @@ func (h *histState) doRegister(i int, op *Op) {
 		}
 	}
 	h.log.Add("op %d register %s kind=%s source=%s configurable=%v", i, d.Name, kindNames[d.Kind], d.Source, d.Configurable)
+	if op.Fresh {
+		// a second registration under the same name: rejected (the API documents a panic); whatever
+		// happens, the registry must afterwards be what it was - the monitors after this op judge that
+		if registerDuplicate(d) {
+			h.ctr.inc("fault/duplicate_registration_rejected")
+		} else {
+			h.ctr.inc("duplicate_registration_not_rejected")
+		}
+		h.log.Add("op %d duplicate registration of %s attempted", i, d.Name)
+	}
 }
 
 func (h *histState) setClock(t int64) {
@@ -626,6 +636,7 @@ func (h *histState) doLint(i int, op *Op) {
 	}
 	m := h.mregs[op.Reg]
 	injected := ""
+	var arm func()
 	if op.Inj != 0 && o.spec.Kind == KCert {
 		if !fineGrainBuild {
 			h.aborted, h.harnessErr = true, "panic injection needs the zsim.fg build"
@@ -663,28 +674,64 @@ func (h *histState) doLint(i int, op *Op) {
 			if (op.Inj>>40)&1 == 1 {
 				occ = int((op.Inj >> 41) % uint64(counts[target]))
 			}
-			k := 0
-			setStmtHook(func(site string) {
-				if site != target {
-					return
-				}
-				if k == occ {
+			arm = func() {
+				k := 0
+				setStmtHook(func(site string) {
+					if site != target {
+						return
+					}
+					if k == occ {
+						k++
+						injected = site
+						setStmtHook(nil)
+						panic("zsim-injected-fault at " + site)
+					}
 					k++
-					injected = site
-					setStmtHook(nil)
-					panic("zsim-injected-fault at " + site)
-				}
-				k++
-			})
+				})
+			}
+			arm()
 		}
 	}
 	h.hangDER, h.hangCfg = o.spec.DER, h.cfgText(m.Cfg)
 	cs, partial := h.lintCall(i, p, h.regs[op.Reg], path, op.Perm, m.Sel)
 	if op.Inj != 0 {
 		setStmtHook(nil)
-		if injected != "" {
+		if injected != "" && !cs.Hung && cs.Panic == "" {
 			h.ctr.inc("fault/panic_injected_in_rule")
 			h.mark("inject_sites", injected)
+			// the same fault once more, on a fresh twin: what the caller gets back for a contained panic
+			// (status and details of every lint) must not differ from one call to the next
+			if twin, err := parseObj(o.spec.Kind, o.spec.DER); err == nil && !partial {
+				first := injected
+				arm()
+				cs2, _ := h.lintCall(i, twin, h.regs[op.Reg], path, op.Perm, m.Sel)
+				setStmtHook(nil)
+				injected = first
+				hit := func(c *CanonSet) string {
+					for _, n := range sortedKeys(c.Results) {
+						if c.Results[n].S == 7 && strings.Contains(c.Results[n].D, "zsim-injected-fault") {
+							return n
+						}
+					}
+					return ""
+				}
+				if f1, f2 := hit(cs), hit(cs2); f1 != f2 {
+					// the occurrence chosen fell into another rule this time (map iteration inside the code under test)
+					h.ctr.inc("fault_repeat_reached_other_rule")
+				} else if !cs2.Hung && cs2.Panic == "" {
+					h.checks++
+					for _, n := range sortedKeys(cs.Results) {
+						if r2, ok := cs2.Results[n]; ok && r2 != cs.Results[n] {
+							h.violate(Violation{Property: "C05", Class: "fault_result_unstable", Lint: n, Op: i, Site: first,
+								Detail:   "the same panic injected at " + first + " into the same call on a fresh twin of the object gave a different result for this lint",
+								Expected: cs.Results[n].String(), Got: r2.String()})
+							break
+						}
+					}
+				}
+			}
+		} else if injected != "" {
+			h.ctr.inc("fault/panic_injected_in_rule")
 		} else {
 			h.ctr.inc("panic_injection_not_reached")
 		}
